@@ -163,6 +163,7 @@ type Router struct {
 	closedCh            chan struct{}
 	closed              bool
 	closedLock          sync.Mutex
+	closeTimedOut       bool
 
 	logger watermill.LoggerAdapter
 
@@ -551,6 +552,10 @@ func (r *Router) Close() error {
 
 	if r.closed {
 		r.logger.Debug("Already closed", nil)
+		if r.closeTimedOut {
+			// handlers that outlived CloseTimeout may still be running
+			return errors.New("router close timeout")
+		}
 		return nil
 	}
 
@@ -565,6 +570,7 @@ func (r *Router) Close() error {
 
 	timedout := r.waitForHandlers()
 	if timedout {
+		r.closeTimedOut = true
 		return errors.New("router close timeout")
 	}
 
